@@ -170,6 +170,8 @@ lz('FillDecompressBuffer', reach=['normal exit', 'exceptional exit'], replace=['
    what='queue invariant: unread data never overwritten (DecompressCode precondition unread <= 4035 at every call), terminates')
 lz('CopyAvailableData', timeout=900, what='delivers min(size, unread) oldest bytes in order, advances the read index by the count')
 lz('GetInternalBuffer', reach=['normal exit', 'exceptional exit'], replace=['HuffLZ_FillDecompressBuffer'], timeout=900)
+lz('GetData', reach=['normal exit', 'exceptional exit'], replace=['HuffLZ_FillDecompressBuffer', 'HuffLZ_CopyAvailableData_U'], props=('C04', 'C05'), timeout=900,
+   what='draining through GetData for any request size: memory safe, terminates, delivers the requested count unless the stream ended')
 lz('InitializeDecompressBuffer', props=('C04', 'C18'), what='every byte of the 4096-byte window is a space after initialisation (no uninitialised window byte can reach the output)')
 
 # ---- U-BMPH (C08, C11, C09, C18)
@@ -337,12 +339,12 @@ clm('ClmFile_CreateArchive', ['C03', 'C20', 'C05'], reach=EXC2, flags=['--object
     what='CLM packing pipeline order for any file list; over-long stored names (arbitrary index) refused; every refusal precedes creation of the destination; duplicates are checked on the stored names')
 REL('clm', 'WaveHeader_Create', 'value', 'WaveHeader', nbytes=46, props=('C18', 'C03'))
 REL('clm', 'ClmHeader_MakeHeader', 'value', 'ClmHeader', nbytes=60, props=('C18', 'C03'))
-claim('C04', 'Bit reader proved against the reference bit sequence (MSB-first, 0 beyond the end) with its shift-register invariant for any buffer length; position-code arithmetic proved equal to the LZHUF d_code/d_len tables for all 256 values; GetRepeatOffset proved equal to the reference DecodePosition (lemma, any buffer/bit position) and < 4096; GetNextCode proved to terminate, stay inside the tree arrays and return a symbol < 314 (cvc5, quantified structural tree invariant); DecompressCode appends 1..60 bytes and never moves the read index; FillDecompressBuffer keeps the queue invariant (unread data never overwritten: the per-code precondition unread <= 4035 holds at every call) and terminates; CopyAvailableData / GetInternalBuffer deliver the oldest unread bytes in order and advance by exactly the count; adaptive-tree facts as in C15.',
-      'NOT decided: byte-exact equality of the decoded HISTORY with the reference decoder (ring contents vs history; match copy content), GetData outer loop, ExtractFileLzh, the encoder lemma. ASSUMED: UpdateCodeCount preserves the structural tree invariant for T = 314 (proved only for T <= 6).')
+claim('C04', 'Bit reader proved against the reference bit sequence (MSB-first, 0 beyond the end) with its shift-register invariant for any buffer length; position-code arithmetic proved equal to the LZHUF d_code/d_len tables for all 256 values; GetRepeatOffset proved equal to the reference DecodePosition (lemma, any buffer/bit position) and < 4096; GetNextCode proved to terminate, stay inside the tree arrays and return a symbol < 314 (cvc5, quantified structural tree invariant); DecompressCode appends 1..60 bytes and never moves the read index; FillDecompressBuffer keeps the queue invariant (unread data never overwritten: the per-code precondition unread <= 4035 holds at every call) and terminates; CopyAvailableData / GetInternalBuffer deliver the oldest unread bytes in order and advance by exactly the count; GetData (any request size) is memory safe, terminates (each pass delivers a byte or has reached the end of the stream) and delivers the requested count unless the stream ended; adaptive-tree facts as in C15.',
+      'NOT decided: byte-exact equality of the decoded HISTORY with the reference decoder (ring contents vs history; match copy content), byte content delivered by GetData, ExtractFileLzh, the encoder lemma. ASSUMED: UpdateCodeCount preserves the structural tree invariant for T = 314 (proved only for T <= 6).')
 claim('C03', 'WaveHeader::Create proved to build the canonical 46-byte header (all fields, cbSize 0, chunkSize + 8 = 46 + D) and ClmHeader::MakeHeader the canonical CLM header; version/unknown-field checks proved; FindChunk proved memory safe and terminating on arbitrary bytes over any K_R stream (64-bit cursor, decreases fileSize - cursor); both headers proved deterministic (two-run); the reader-to-writer copy loop proved to transfer exactly the remaining bytes. FindChunk content: a normal return has just read a header carrying the searched tag and returns its length field; a matching first chunk and a matching second chunk after a non-matching first one (also with its header ending exactly at end of file, data length 0) are found. ReadAllWaveHeaders proved memory safe on arbitrary files (format record and index slot of file i only), stored cbSize 0. Reading side (unit clmr): ReadHeader on arbitrary bytes fails or establishes count == |index| with header + index inside the file; GetSize returns the recorded length; OpenStream returns exactly [dataOffset, dataOffset + dataLength) or refuses; ExtractFile writes the 46-byte header plus exactly dataLength bytes, refuses out-of-range indices before creating a file. CreateArchive pipeline order proved (sort, open, parse, formats agree, names of the sorted list, stored names <= 8 characters, duplicate check on the STORED names, then WriteArchive). Bounded stand-ins: PrepareIndex (n <= 3), WriteArchive layout incl. "the file ends with the last member\'s data" (n <= 2) - the latter found and fixed defect D10.',
       'NOT decided: CompareWaveFormats (proof attempt timed out; its place in the pipeline is), chunk walks beyond the second chunk, fmt/data field contents end to end, XFile name handling, std::sort itself. ASSUMED: IndexEntry::GetFilename, vector plumbing, FileWriter as the abstract Writer.')
 NOT_DECIDED.update({
- 'C04': ['history-level equality with the reference decoder (ring/queue content), GetData, ExtractFileLzh, encoder-side lemma', 'tree invariant preservation for T=314 (assumed)'],
+ 'C04': ['history-level equality with the reference decoder (ring/queue content), GetData byte content, ExtractFileLzh, encoder-side lemma', 'tree invariant preservation for T=314 (assumed)'],
  'C03': ['CompareWaveFormats (timeout)', 'FindChunk completeness beyond two chunks', 'PrepareIndex / WriteArchive: bounded in member count', 'XFile name handling, std::sort'],
 })
 
